@@ -7,6 +7,6 @@ CONSTANTS
   Wide = FALSE
   Slim = FALSE
   Alphabet = {"a", ","}
-  MaxInput = 2
+  MaxInput = 1
 INVARIANTS TypeOK StackDistinct Consumes Bounded NoHang RejectSound Export
 
